@@ -89,6 +89,9 @@ def cases(tier, seed):
     # the memory model of the C back end rests on its hash-map helper text: checked by vf/chelper.py
     out.append({'fam': 'HELPER', 'k': 'chelper', 'limbs': 1, 'backend': 'compiled'})
     out.append({'fam': 'HELPER', 'k': 'chelper', 'limbs': 2, 'backend': 'compiled'})
+    # CompiledSimulation.run([step0, step1, ...]) in one call (input and output buffers of different sizes)
+    for c in designs.op_cases([3, 65], ops='+<c', mul_max=0) + designs.seq_cases(widths=(3,))[:3]:
+        out.append(dict(c, k='run_many', K=3, sim='compiled', form='pre'))
     # "leave the same memory contents": CompiledSimulation shows them through inspect_mem(), which calls the C lookup via ctypes
     for aw in (4, 31, 32, 33, 64):
         for bw in (8, 70):
@@ -170,6 +173,9 @@ def run_case(case, ob, tier):
         return c08.run_chelper(case, ob, 'C02:compiled:hash-map-helper')
     if case.get('k') == 'inspect_mem':
         return run_inspect_mem(case, ob, 'C02:compiled:inspect_mem:aw=%d' % case['aw'])
+    if case.get('k') == 'run_many':
+        from . import c15
+        return c15.do_run_many(case, ob, 'C02:compiled:run(list):' + site_of(case).split(':', 2)[2])
     # every enabled write port doubles the explored paths per cycle: when the budget is exceeded the same design is decided for
     # fewer cycles (noted in the evidence) instead of not at all
     for K in [case['K']] + [k_ for k_ in (3, 2) if k_ < case['K']]:
@@ -380,6 +386,9 @@ def replay(cex):
     if case.get('k') == 'chelper':
         from . import c08
         return c08.replay(cex)
+    if case.get('k') == 'run_many':
+        from . import c15
+        return c15.replay(dict(cex, case=dict(case, k='run_many')))
     if case.get('k') == 'inspect_mem':
         # write a non-zero word at the index through the simulation, read it back through inspect_mem and through a read port
         block, mem = inspect_design(case)
